@@ -20,7 +20,7 @@ RUNS = {'quick': 2400, 'thorough': 12000}
 CHUNK = 10
 RECHECK_MOD = 41
 SWITCHES = ['show_timestamp', 'show_name', 'show_func_qual', 'show_tid', 'show_process', 'show_args']
-PROBES = ['terminate_names_declared_thread', 'huge_thread_id', 'earlier_request_other_object', 'undeclared_thread', 'thread_declared_by_newthread_record', 'mapping_superseded_by_terminate_pid', 'mapping_superseded_by_sampler',
+PROBES = ['cli_lines_compared', 'terminate_names_declared_thread', 'huge_thread_id', 'earlier_request_other_object', 'undeclared_thread', 'thread_declared_by_newthread_record', 'mapping_superseded_by_terminate_pid', 'mapping_superseded_by_sampler',
           'process_renamed_by_exec', 'window_straddles_update', 'earlier_request_other_dump', 'all_64_configs', 'colour_compared',
           'callstack_lines', 'log_lines', 'wallclock_timestamps', 'kevents_superseded_thread']
 RULE = ('one run = one simulated dump (2..4 threads, thread map declaring a subset, map-updating records aimed at other threads, seeded '
@@ -99,7 +99,7 @@ def generate(rng, index, tier):
     if version == 2:
         w['pad'] = rng.pick([0, 64])
     dump = {'threads': threads, 'schedule': sched, 'writer': w, 't0': (rng.randrange(1, 1 << 40) << 8) | 1}
-    scn = {'dump': dump, 'colour_lines': 6, 'wallclock': rng.chance(0.3), 'all64': tier == 'thorough' or index % 8 == 0}
+    scn = {'dump': dump, 'colour_lines': 6, 'wallclock': rng.chance(0.3), 'all64': tier == 'thorough' or index % 8 == 0, 'cli': index % 16 == 3}
     if rng.chance(0.25):
         # an earlier request on ANOTHER PyKdebugParser object in the same process whose dump ends with unanswered data records of
         # these very threads, naming pids this dump uses (nothing of it may reach this dump's lines)
@@ -373,5 +373,31 @@ def execute(scn):
             bump({'termpid': 'probe:mapping_superseded_by_terminate_pid', 'sampler': 'probe:mapping_superseded_by_sampler',
                   'exec': 'probe:process_renamed_by_exec', 'newthread': 'upd_newthread', 'terminate': 'probe:terminate_names_declared_thread'}[k])
         shapes.add((kind, tuple(sorted(upd_kinds)), bool(set(r['t'] for r in stream) - declared_ever)))
+    if scn.get('cli') and not scn.get('wallclock') and not viols:
+        # the command line offers the thread-id column and colour as switches: its lines are the library's lines
+        import os
+        import tempfile
+        from click.testing import CliRunner
+        from pykdebugparser.__main__ import cli
+        bump('probe:cli_lines_compared')
+        with tempfile.TemporaryDirectory() as td:
+            path = os.path.join(td, 'dump')
+            with open(path, 'wb') as f:
+                f.write(data)
+            for cmd, api, extra in (('kevents', 'formatted_kevents', []), ('traces', 'formatted_traces', ['--no-color']),
+                                    ('traces', 'formatted_traces', ['--color']), ('callstacks', 'formatted_callstacks', [])):
+                for tidsw in ('--show-tid', '--no-show-tid'):
+                    if table != tool.codes():
+                        continue
+                    res = CliRunner().invoke(cli, [cmd, path, tidsw] + extra)
+                    p = tool.pk_mod.PyKdebugParser()
+                    p.show_tid = tidsw == '--show-tid'
+                    p.color = '--no-color' not in extra
+                    items, exc = common.drain(lambda: getattr(p, api)(SimReader(data)))
+                    want = ''.join(str(x) + '\n' for x in items)
+                    if exc is None and res.exception is None and res.output != want:
+                        bad('cli-lines-differ', cmd, '%s %s %s: the command line printed %d lines, the library %d; first difference %r' % (
+                            cmd, tidsw, extra, res.output.count('\n'), len(items),
+                            next(((a, b) for a, b in zip(res.output.split('\n'), want.split('\n')) if a != b), None)))
     return {'violations': viols, 'digest': digest_of(scn, hist), 'stats': stats, 'nontrivial': nontrivial,
             'shape': repr(sorted(shapes)), 'extent': {'records_delivered': len(stream) * len(cfgs) * 4, 'configurations': len(cfgs)}}
